@@ -264,7 +264,7 @@ func (c *checkCtx) check() int {
 			fmt.Fprintln(os.Stderr, "gcsim: build trouble:", err)
 			return 2
 		}
-		n := 88
+		n := 92
 		if c.Tier == "thorough" {
 			n = 1200
 		}
